@@ -210,6 +210,11 @@ def run(R, only=None):
                 ("select x from a where not (x > 1 and y > 1)", None, {"demorgan"}),
                 ("select x, case when not (y > 0) then 1 else 2 end from a", None, {"null-rules"}),
                 ("select count(*) from a where x + 1 > 2 and x + 1 > 1", None, {"fold"}),
+                # range conjuncts whose bounds are literals of different types (INT / DECIMAL / BIGINT): the folding rules compare the constants
+                ("select x, y from a where x > 1 and x > 0.5", None, {"fold", "mixed-literals"}), ("select x, y from a where x > 0.5 and x > 1", None, {"fold", "mixed-literals"}),
+                ("select x, y from a where x < 3 and x < 1.5", None, {"fold", "mixed-literals"}), ("select x, y from a where x >= 0.5 and x < 3", None, {"fold", "mixed-literals"}),
+                ("select x, y from a where x > 0.5 and x < 2", None, {"fold", "mixed-literals"}), ("select x, y from a where y > -3000000000 and y > 0", None, {"fold", "mixed-literals"}),
+                ("select x, y from a where y <= 3000000000 and y <= 1", None, {"fold", "mixed-literals"}),
                 # one query per modelled plan rule family (filters above semi / anti / inner joins, stacked filters, filter above ORDER BY)
                 ("select x, y from a where not exists (select 1 from b where b.x = a.x) and y > 1", None, {"anti", "plan-rule"}),
                 ("select x, y from a where exists (select 1 from b where b.x = a.x) and y > 1", None, {"semi", "plan-rule"}),
@@ -272,6 +277,10 @@ def run(R, only=None):
             ("select p.k, p.v, a.x, a.y from p join a on p.k = a.x and p.v < a.y", None),
             ("select p.k, a.y from p join a on p.k = a.x where a.y >= p.v or p.v is null", None),
             ("select a.x, a.y from a where exists (select 1 from p where p.k = a.x and p.v > a.y)", None),
+            # ORDER BY over a join whose one input arrives ordered (the keyed scan): the order analysis must not credit the join with it
+            ("select a.x, p.k from a left join p on a.x = p.k order by p.k", [(1, False)]), ("select p.k, a.x from p left join a on a.x = p.k order by p.k", [(0, False)]),
+            ("select a.x, p.k, p.v from a join p on a.x = p.k order by p.k, a.x", [(1, False), (0, False)]),
+            ("select a.x, p.k from a left join p on a.x = p.k order by p.k desc", [(1, True)]),
         ])
         a_b, b_b = c02.gen_db(rng)
         steps = [{"sql": "create table p(k int primary key, v int)"}, {"sql": "create table a(x int, y int, s varchar)"},
